@@ -73,6 +73,12 @@ func scenarioC19(rc *RunCtx) *Violation {
 			rc.Probe("shared_reference_from_different_depths_profile")
 		}
 	}
+	if g.n(8) == 0 {
+		// a style-sheet site next to the modules: CSS entry points, @layer lists, sheets imported twice
+		o.Bundle = true
+		p.AddCSSSite(g)
+		rc.Probe("profile_css_site")
+	}
 	d := newDisk(g)
 	d.Gran = granChoices[g.n(len(granChoices))]
 	cfg := HistCfg{Steps: 1 + g.n(6), InPlace: g.n(2) == 1, EditsPerStep: 3}
